@@ -49,7 +49,7 @@ def heredoc_cmd(rnd):
 class P:
     id = "C07"
     rule = ("sequences of 2-6 generated complete command lines (single-line, multi-line compound, here-documents incl. several per line, trailing comments, "
-            "line continuations, blank lines, with and without a final newline) concatenated into one stream and read by successive ParseCommands calls "
+            "line continuations, blank lines, with and without a final newline; here-document delimiter words holding each of 19 expansion notations with sibling spellings in the body) concatenated into one stream and read by successive ParseCommands calls "
             "through a custom io.RuneScanner and a strings.Reader; after every call the scanner offset must equal the end of that command's text and the "
             "result must equal the parse of the text alone; blank lines must yield empty results. Non-trivial = at least one multi-line element; distinct sequences counted")
     assumptions = ["only sequences whose elements parse without error on their own are judged (others are skipped and counted)"]
